@@ -412,6 +412,8 @@ def synthetic():
 
 
 MUTANTS = [
+    Mutant('temporary-opened-exclusively', RES, 'SimulationResults._save_to_pickle',
+           [('replace', "open(tmp_filename, 'wb')", "open(tmp_filename, 'xb')")], r'C07\.a:SimulationResults\._save_to_pickle:open-mode'),
     Mutant('parameter-names-compared-in-insertion-order', PAR, 'SimulationParameters.__eq__',
            [('replace', 'set(self.parameters.keys()) != set(other.parameters.keys())', 'list(self.parameters.keys()) != list(other.parameters.keys())')],
            r'C07\.f:SimulationParameters\.__eq__:ordered-keys'),
